@@ -254,9 +254,14 @@ def gen_case(rng, tier, index):
         groups[-2:] = [groups[-2] + groups[-1]]
     for (b, o), g in zip(chosen, groups):
         locs.append([b, o, g])
-    return {"abi": abi, "sizes": sizes, "locs": locs, "defect": defect,
+    case = {"abi": abi, "sizes": sizes, "locs": locs, "defect": defect,
             "shuffle": rng.randrange(1 << 30),
             "undefined_byte_order": rng.random() < 0.3}
+    if rng.random() < 0.15 and any(d[0] == ".cfi_escape"
+                                   for _, _, g in locs for d in g):
+        case["twin"] = rng.choice([a for a in ABIS
+                                   if ABIS[a][3] != ptr] or [abi])
+    return case
 
 
 def build(case):
@@ -376,6 +381,22 @@ def norm_ref(s):
 
 
 def run_case(case):
+    res = judge(case)
+    if case.get("twin"):
+        # the same directives (the very same escape bytes) in a module of
+        # another ABI, evaluated next in this process: pointer size and byte
+        # order are the module's, whatever was decoded before
+        res2 = judge(dict(case, abi=case["twin"]))
+        for v in res2["violations"]:
+            v["msg"] = f"(as {case['twin']} after {case['abi']}) " + v["msg"]
+        res["violations"] += res2["violations"]
+        for k, v in res2["counters"].items():
+            res["counters"][k] = res["counters"].get(k, 0) + v
+        res["counters"]["evaluations_under_a_second_abi"] = 1
+    return res
+
+
+def judge(case):
     import random
     from gtirb_rewriting.dwarf.cfi_eval import (CFIStateError,
                                                 evaluate_cfi_directives)
